@@ -184,7 +184,7 @@ theorem pcrLoop_pw (fuel : Nat) (ss : List Stmt) {ss' : List Stmt} (h : pcrLoop 
       · cases h
 
 /-- a successful `pcrLoop` leaves no statement of undecided size -/
-theorem pcrLoop_allFixed (fuel : Nat) (ss : List Stmt) {ss' : List Stmt} (h : pcrLoop fuel ss = .ok ss') :
+theorem pcrLoop_ok_allFixed (fuel : Nat) (ss : List Stmt) {ss' : List Stmt} (h : pcrLoop fuel ss = .ok ss') :
     allFixed ss' = true := by
   induction fuel generalizing ss with
   | zero =>
